@@ -4,6 +4,7 @@ import Proofs.DepGraphTopo
 import Proofs.DepGraphInvert
 import Proofs.DepGraphQueries
 import Proofs.DepGraphGraft
+import Proofs.GraftOrder
 import Proofs.DepGraphTopoComplete
 /-!
 # C16 — the dependency graph mirrors a plain node/edge set under any edit history
@@ -18,7 +19,8 @@ spec (`addNode_refines`, `addDep_refines`, `removeDep_refines`, `removeNode_refi
 `merge`, `copy`, `+` and `invert` refine the spec too (`multi_history_refines`: histories over any number of graph variables),
 and the topological sort is proved sound and total on every such graph (`topo_history`: returns exactly on acyclic
 graphs, every node once after all its dependencies, `cyclic` otherwise).
-`graft` refines its set-level counterpart (`graft_refines_spec`); `flatten` (a loop of grafts), `transitive_reduction/closure` are in the executable model and tied to the code by the
+`graft` refines its set-level counterpart (`graft_refines_spec`) and preserves the ordering constraints between
+the plain nodes (`graft_preserves_order`); `flatten` (a loop of grafts), `transitive_reduction/closure` are in the executable model and tied to the code by the
 correspondence; their theorems are not proved yet (`multi_history_refines` is therefore the `…_partial` form of the
 property's first sentence: histories without grafts).  `c16_pinned_refuted` keeps the pinned `graft` (A19) refuted.
 -/
@@ -345,6 +347,33 @@ theorem graft_refines_spec {g sub : G} {s t : Spec} (hg : Refines g s) (hs : Ref
     rw [he u w]
     unfold Added G.Terminal G.Initial Spec.graft
     simp only [eE, eN, tE, tN]
+
+/-- **grafting preserves the ordering constraints between the plain nodes**: when the nested graph is acyclic and
+shares no node with the outer graph, a plain node has to come after another one in the grafted graph exactly when it
+had to before (this is one round of `flatten`). -/
+theorem graft_preserves_order {g sub : G} {s t : Spec} (hg : Refines g s) (hs : Refines sub t) {x : Nat} (hx : s.N x)
+    (hdisj : ∀ z, t.N z → ¬ s.N z) (hxx : ¬ s.E x x) (hac : ¬ t.Cyclic) :
+    ∃ g', g.graft x sub = .ok g' ∧ Refines g' (s.graft t x) ∧
+      ∀ u w, s.N u → u ≠ x → s.N w → w ≠ x →
+        (Relation.TransGen g'.Edge u w ↔ Relation.TransGen s.E u w) := by
+  obtain ⟨g', hgr, hr⟩ := graft_refines_spec hg hs hx
+  refine ⟨g', hgr, hr, ?_⟩
+  have eE' : g'.Edge = graftE s.E t.N t.E x := by funext u w; exact propext (hr.2.2 u w)
+  have hEs : ∀ u w, s.E u w → s.N u ∧ s.N w := by
+    intro u w h
+    have := edge_nodes ((hg.2.2 u w).2 h)
+    exact ⟨(hg.2.1 u).1 this.1, (hg.2.1 w).1 this.2⟩
+  have hEt : ∀ u w, t.E u w → t.N u ∧ t.N w := by
+    intro u w h
+    have := edge_nodes ((hs.2.2 u w).2 h)
+    exact ⟨(hs.2.1 u).1 this.1, (hs.2.1 w).1 this.2⟩
+  obtain ⟨l, hl⟩ := topo_acyclic hs hac
+  obtain ⟨lnd, lmem, lord⟩ := topo_sound hs hl
+  intro u w hu hux hw hwx
+  rw [eE']
+  constructor
+  · exact graft_order_sound hEs hEt hdisj hxx hu hux hw
+  · exact graft_order_complete hxx (exists_init_term l lnd lmem hEt lord) hux hwx
 
 /-! ### `dependencies` -/
 
